@@ -577,6 +577,17 @@ class Interp:
                     acc = self.binop(ast.Add(), acc, x, node)
                 return acc
             return Unknown('sum')
+        if name in ('any', 'all') and len(args) == 1:
+            it = self.iterate(args[0], node)
+            if it is not None:
+                ts = [self.truth(x) for x in it]
+                if all(t is not None for t in ts):
+                    return Const(any(ts) if name == 'any' else all(ts))
+                if name == 'any' and any(t is True for t in ts):
+                    return Const(True)
+                if name == 'all' and any(t is False for t in ts):
+                    return Const(False)
+            return Unknown(name)
         if name == 'hasattr' and len(args) == 2 and isinstance(args[1], Const):
             if isinstance(args[0], Obj):
                 return Const(args[1].v in args[0].attrs or self.db.method(args[0].ci, args[1].v) is not None)
